@@ -595,6 +595,9 @@ class RangeDimension(Dimension):
 
     @ticks.setter
     def ticks(self, ticks):
+        # converted first: values that cannot be stored as doubles are
+        # refused before a link or the stored ticks are given up
+        ticks = np.array(ticks, dtype=np.float64)
         if np.any(np.diff(ticks) < 0):
             raise ValueError("Ticks are not given in an ascending order.")
         if self.has_link:
